@@ -36,7 +36,8 @@ from xdsl.transforms.canonicalization_patterns.utils import (
 #    for i in range(x, N, K):
 #      f(A[i])
 #
-#    factor = (iu - il) // is
+#    # (If ol is 0, and with ou rounded up to a multiple of os)
+#    factor = max(0, ceildiv(iu - il, is))
 #    for o in range(ol, ou * factor, os):
 #      # o is not used
 #
@@ -154,11 +155,14 @@ class FlattenNestedLoopsPattern(RewritePattern):
                 # Do not currently handle lb != 0
                 return
 
-            factor = (inner_ub - inner_lb) // inner_step
+            # The inner loop has ceildiv(iu - il, is) iterations, or none if iu < il
+            factor = max(0, -((inner_lb - inner_ub) // inner_step))
             factor_op = arith.ConstantOp(
                 builtin.IntegerAttr(factor, builtin.IndexType())
             )
-            new_ub_op = arith.MuliOp(op.ub, factor_op.result)
+            # The new loop has ou * factor / os iterations if os divides ou
+            outer_ub = _whole_steps_ub(op, outer_step, rewriter)
+            new_ub_op = arith.MuliOp(outer_ub, factor_op.result)
             rewriter.insert((factor_op, new_ub_op))
             new_ub = new_ub_op.result
             new_step = op.step
